@@ -228,7 +228,7 @@ class C04(Prop):
     REAL_VS_STUB = {'real': ['all dataflows code of the generated pipeline', 'parallelize.py under seam B'],
                     'stub': ['file-system seam (io.FileIO subclass, os wrappers)', 'KVFile twin (counts ops, raises sqlite3.OperationalError)', 'seam B twins for the parallelize pipelines']}
     PROBES = ['fault-not-reached', 'observer-after-failure', 'fault-in-package-phase', 'fault-at-exhaustion', 'fault-after-all', 'io-error-fired', 'kv-error-fired',
-              'source-raise-in-sample', 'source-raise-after-sample', 'parallelize-upstream-raise', 'parallelize-downstream-raise', 'prebuilt-processor-error', 'poison-fired'] + ['in-failed-pipeline:' + k for k in sorted(ST.GENS)]
+              'source-raise-in-sample', 'source-raise-after-sample', 'parallelize-upstream-raise', 'parallelize-downstream-raise', 'prebuilt-processor-error', 'poison-fired', 'sweep-complete'] + ['in-failed-pipeline:' + k for k in sorted(ST.GENS)]
     TIERS = {'quick': dict(runs=900, wall=100, run_wall=120),
              'thorough': dict(runs=25000, wall=1700, run_wall=300)}
     SHRINK_FROZEN = ('fields', 'gen_stats')
@@ -240,7 +240,8 @@ class C04(Prop):
                             'strategy': rng.choice(['uniform', 'pct2', 'sticky', 'lazy-feeder']),
                             'fault': {'where': rng.choice(['upstream', 'upstream', 'downstream']), 'phase': rng.choice(['row', 'row', 'end', 'after-all', 'package']),
                                       'row': rng.randrange(n), 'exc': rng.choice(F.EXC_CLASSES)}}}
-        return {'gseed': rng.randrange(2**62), 'nsteps': rng.choice([1, 2, 3, 4, 6]), 'fseed': rng.randrange(2**62),
+        sweep = rng.random() < (0.02 if tier == 'quick' else 0.15)
+        return {'gseed': rng.randrange(2**62), 'nsteps': rng.choice([1, 2, 3, 4, 6]) if not sweep else rng.choice([1, 2, 3]), 'fseed': rng.randrange(2**62), 'sweep': sweep,
                 'api': rng.choice(['process', 'results']), 'bufsize': rng.choice([None, 64]), 'kvsize': rng.choice([None, 2, 7])}
 
     def execute(self, sc, ctx):
@@ -251,7 +252,7 @@ class C04(Prop):
             if r['status'] != 'ok':
                 ctx.discard('generation failed')
             new = r['value']
-            for k in ('fseed', 'api', 'bufsize', 'kvsize', 'fault'):
+            for k in ('fseed', 'api', 'bufsize', 'kvsize', 'fault', 'sweep'):
                 if k in sc:
                     new[k] = sc[k]
             sc = new
@@ -263,16 +264,66 @@ class C04(Prop):
         if ref['status'] != 'ok':
             ctx.discard('fault-free run raises: %s' % json.dumps(ref.get('exc'))[:200])
         K, kv_ops = ref['value']['seam_ops'], ref['value']['kv_ops']
+        if sc.get('sweep') and 'fault' not in sc:
+            # every step position x phase (one exception class each, round robin), every row position first/middle/last of every
+            # resource, every I/O seam op, every KVFile op of this pipeline
+            faults = []
+            n = len(sc['steps'])
+            nres = len(sc['tables'])
+            classes = list(F.EXC_CLASSES)
+            rr = random.Random(sc['fseed'])
+            rr.shuffle(classes)
+            ci = [0]
+
+            def nxt():
+                ci[0] += 1
+                c = classes[ci[0] % len(classes)]
+                return c if c != 'StopIteration' else 'Boom'
+            for pos in range(n + 1):
+                faults.append({'kind': 'step', 'pos': pos, 'phase': 'package', 'exc': nxt()})
+                faults.append({'kind': 'step', 'pos': pos, 'phase': 'after-all', 'exc': nxt()})
+                faults.append({'kind': 'step', 'pos': pos, 'phase': 'rowfunc', 'call': 0, 'exc': nxt()})
+                faults.append({'kind': 'step', 'pos': pos, 'phase': 'rowfunc', 'call': 1, 'exc': 'StopIteration'})
+                for r_ in range(nres + 1):
+                    faults.append({'kind': 'step', 'pos': pos, 'phase': 'end', 'res': r_, 'row': 0, 'exc': nxt()})
+                    for row in (0, 1, 2):
+                        faults.append({'kind': 'step', 'pos': pos, 'phase': 'row', 'res': r_, 'row': row, 'exc': nxt()})
+            for k in range(1, K + 1):
+                faults.append({'kind': 'io', 'k': k, 'errno': 'ENOSPC', 'frac': 0.0})
+            for k in range(1, kv_ops + 1):
+                faults.append({'kind': 'kv', 'k': k})
+            for ti, t in enumerate(sc['tables']):
+                for after in sorted(set([0, len(t['rows']) // 2, len(t['rows'])])):
+                    faults.append({'kind': 'source', 'res': ti, 'after': after, 'exc': nxt()})
+            ctx.extra['expanded'] = sc
+            for fi, fault in enumerate(faults):
+                self._one_fault(dict(sc, fault=fault), base, fault, ctx, 'f%d' % fi)
+            ctx.probe('sweep-complete')
+            ctx.count('sweep_faults', len(faults))
+            ctx.sample = {'steps': sc['steps'], 'sweep': True, 'fault_sites': len(faults), 'sources': [len(t['rows']) for t in sc['tables']]}
+            return
         if 'fault' not in sc:
             sc = dict(sc)
             sc['fault'] = gen_fault(random.Random(sc['fseed']), sc, K, kv_ops)
         ctx.extra['expanded'] = sc
-        fault = sc['fault']
-        d1 = os.path.join(ctx.scratch, 'run')
+        self._one_fault(sc, base, sc['fault'], ctx, 'run')
+
+    def _one_fault(self, sc, base, fault, ctx, tag):
+        before = {k: ctx.fired.get(k, 0) for k in ('step-raise', 'source-raise', 'io-error', 'kv-error', 'poison')}
+        d1 = os.path.join(ctx.scratch, tag)
         os.makedirs(d1)
         os.chdir(d1)
         r = ctx.subrun(_run, dict(base, sc=sc, fault=fault))
-        fired = any(ctx.fired.get(k) for k in ('step-raise', 'source-raise', 'io-error', 'kv-error', 'poison'))
+        fired = any(ctx.fired.get(k, 0) > before[k] for k in before)
+        try:
+            self._judge(sc, base, fault, ctx, r, fired, d1)
+        finally:
+            os.chdir(ctx.scratch)
+            import shutil
+            shutil.rmtree(d1, ignore_errors=True)
+
+    def _judge(self, sc, base, fault, ctx, r, fired, d1):
+        ctx.extra['last_fault'] = fault
         if r['status'] == 'ok' and r['value'].get('construct_raised'):
             ctx.probe('fault-at-construction')
             ctx.sample = {'steps': sc['steps'], 'fault': fault, 'note': 'fault fired while step objects were constructed (outside process()): not judged'}
@@ -391,7 +442,11 @@ class C04(Prop):
                 return dict(sc, schedule=ex['schedule'])
             return None
         if 'steps' not in sc and ex.get('expanded'):
-            return ex['expanded']
+            new = dict(ex['expanded'])
+            if new.get('sweep') and ex.get('last_fault'):
+                new['fault'] = ex['last_fault']
+                new['sweep'] = False
+            return new
         return None
 
 
